@@ -4,6 +4,7 @@ import (
 	"fmt"
 	"go/token"
 	"go/types"
+	"strings"
 
 	"golang.org/x/tools/go/ssa"
 )
@@ -46,6 +47,45 @@ func (vc *VC) lockOp(fr *Frame, recv SV, mode int, acquire bool, pos token.Pos) 
 }
 
 func (vc *VC) atomicAccess(lv *LVal) {}
+
+// isShared reports whether a location is declared `shared`: accessed through
+// sync/atomic by several goroutines.  Atomic loads of shared cells return an
+// arbitrary value (any interleaving), atomic stores have no effect on the verified
+// sequential state; what callers may rely on is stated by `assumes` clauses.
+func (vc *VC) isShared(lv *LVal) bool {
+	for _, cf := range vc.eng.cfiles {
+		for _, sh := range cf.Shared {
+			if strings.HasPrefix(sh, "cell ") {
+				if lv.Space == 'O' && lv.Leaf == 0 && shortTK(lv.TK) == strings.TrimSpace(strings.TrimPrefix(sh, "cell ")) {
+					return true
+				}
+				continue
+			}
+			parts := strings.SplitN(sh, ".", 2)
+			if len(parts) != 2 || lv.Space != 'O' {
+				continue
+			}
+			if !(strings.HasSuffix(lv.TK, "."+parts[0]) || strings.Contains(lv.TK, "."+parts[0]+"[")) {
+				continue
+			}
+			ot := vc.eng.tkTypes[lv.TK]
+			if ot == nil {
+				ot = lv.ObjT
+			}
+			if st, ok := ot.Underlying().(*types.Struct); ok {
+				for i := 0; i < st.NumFields(); i++ {
+					if st.Field(i).Name() == parts[1] {
+						lo, hi := vc.eng.fieldRange(st, i)
+						if lv.Leaf >= lo && lv.Leaf < hi {
+							return true
+						}
+					}
+				}
+			}
+		}
+	}
+	return false
+}
 
 func (vc *VC) guardCheck(lv *LVal, write bool) {
 	if vc.pure > 0 {
